@@ -95,8 +95,46 @@ func pick[T any](r *rand.Rand, xs []T) T { return xs[r.IntN(len(xs))] }
 var hostileInts = []int{0, 1, -1, 2, 9, 10, 255, 256, 4095, math.MaxInt32, math.MaxInt32 + 1, math.MinInt32, math.MinInt32 - 1,
 	math.MaxInt64, math.MinInt64, math.MaxInt64 - 1, math.MinInt64 + 1, 1000000007, -42}
 
-func randInt(r *rand.Rand) int {
+// digitInt returns an integer with a given number of decimal digits (1..19,
+// every count equally likely; leading digit random, so 10^k and 10^k−1-like
+// values occur), or one next to a power of two or ten — where a hand-written
+// integer formatter or parser (digit pairs from a table, "up to 9 digits fit a
+// uint32", overflow checks) changes its path.
+func digitInt(r *rand.Rand) int {
+	var v uint64
 	switch r.IntN(4) {
+	case 0:
+		v = uint64(1)<<uint(r.IntN(64)) + uint64(r.IntN(3)) - 1
+	case 1:
+		v = 1
+		for d := r.IntN(19); d > 0; d-- {
+			v *= 10
+		}
+		v += uint64(r.IntN(3)) - 1
+	default:
+		digits := 1 + r.IntN(19)
+		v = uint64(1 + r.IntN(9))
+		for d := 1; d < digits; d++ {
+			nd := uint64(r.IntN(10))
+			if r.IntN(4) == 0 {
+				nd = pick(r, []uint64{0, 9})
+			}
+			v = v*10 + nd
+		}
+	}
+	if v > math.MaxInt64 {
+		v = math.MaxInt64 - uint64(r.IntN(3))
+	}
+	if r.IntN(2) == 0 {
+		return -int(v)
+	}
+	return int(v)
+}
+
+func randInt(r *rand.Rand) int {
+	switch r.IntN(5) {
+	case 4:
+		return digitInt(r)
 	case 0:
 		return pick(r, hostileInts)
 	case 1:
@@ -528,4 +566,44 @@ func faultDest(kind int, lw *limitWriter) (io.Writer, string) {
 		return limitWriterBS{lw}, "a writer with Write, WriteByte and WriteString"
 	}
 	return lw, "a plain io.Writer"
+}
+
+// runSeq returns n symbols over alpha that are NOT uniformly random: runs of
+// one symbol and tandem repeats of a short unit (period 1..8), of lengths 1..3,
+// 15..17, 31..33, 63..65, 127..129, 255..257, 1000 and random, with short
+// random stretches in between — homopolymers, microsatellites, padding. Code
+// that treats runs specially (run-length tricks, bulk fills, "same as the
+// previous byte" caches, SIMD-style block compares) sees nothing of the kind
+// in uniformly random input.
+func runSeq(r *rand.Rand, alpha []byte, n int) []byte {
+	out := make([]byte, 0, n)
+	for len(out) < n {
+		l := pick(r, []int{1, 2, 3, 15, 16, 17, 31, 32, 33, 63, 64, 65, 127, 128, 129, 255, 256, 257, 1000, 1 + r.IntN(40), 1 + r.IntN(300)})
+		switch r.IntN(4) {
+		case 0: // a random stretch
+			out = append(out, randSeq(r, alpha, min(l, 12))...)
+		case 1: // a tandem repeat
+			unit := randSeq(r, alpha, 1+r.IntN(8))
+			for j := 0; j < l; j++ {
+				out = append(out, unit[j%len(unit)])
+			}
+		default: // a run of one symbol (the first and the last of the alphabet more often than the others)
+			b := alpha[r.IntN(len(alpha))]
+			if r.IntN(3) == 0 {
+				b = pick(r, []byte{alpha[0], alpha[len(alpha)-1]})
+			}
+			for j := 0; j < l; j++ {
+				out = append(out, b)
+			}
+		}
+	}
+	return out[:n]
+}
+
+// seqOrRuns: randSeq, or (one time in four) runSeq.
+func seqOrRuns(r *rand.Rand, alpha []byte, n int) []byte {
+	if r.IntN(4) == 0 {
+		return runSeq(r, alpha, n)
+	}
+	return randSeq(r, alpha, n)
 }
